@@ -2,6 +2,8 @@
 
 package cache
 
+import "time"
+
 // C06/C11/C18 — shard behaviour over the real dispatcher, groupcache/lru and container/list
 // with the hash function left uninterpreted (any hash: "however keys collide").
 
@@ -85,4 +87,57 @@ func Harness_C11_lru() {
 	verifAssert("C11.lru.no-needless-drop", verifImplies(verifNot(allSame), eb2 == eb))
 	verifAssert("C11.lru.dropped-is-fresh", verifImplies(allSame, eb2.status == StatusUnknown))
 	verifReach("C11.lru.end")
+}
+
+// keyStore records (by reference) the key of every call it gets.
+type keyStore struct {
+	getKey, setKey, delKey []byte
+	gets, sets, dels       int
+}
+
+func (s *keyStore) Get(key []byte) ([]byte, error) {
+	s.gets++
+	s.getKey = key
+	return nil, errStoreNotFound
+}
+func (s *keyStore) Set(key []byte, data []byte, ttl time.Duration) error {
+	s.sets++
+	s.setKey = key
+	return nil
+}
+func (s *keyStore) Delete(key []byte) error {
+	s.dels++
+	s.delKey = key
+	return nil
+}
+func (s *keyStore) Close() error { return nil }
+
+func c06SameKeyAt(a, b []byte, i int) bool {
+	return verifAnd(len(a) == len(b), verifImplies(verifAnd(i >= 0, verifAnd(i < len(a), i < len(b))), c06At(a, i) == c06At(b, i)))
+}
+
+func c06At(a []byte, i int) byte {
+	if i >= 0 && i < len(a) {
+		return a[i]
+	}
+	return 0
+}
+
+// The persisted copy of an entry lives under exactly the entry's cache key: whatever the length of
+// the key (up to 2000 bytes here, so beyond any 1 KiB or 255-byte limit of a backend), the key handed
+// to the store for lookup, write-through and purge has the same length and the same byte at every
+// (symbolic) position.  Two requests that differ anywhere in method, host or URI therefore never
+// share a persisted record.
+func Harness_C06_store_key() {
+	st := &keyStore{}
+	k := verifBytesSym("k", 2000)
+	verifAssume(len(k) > 0)
+	i := verifInt("i")
+	hc := NewHTTPStoreCache(k, st)
+	s0, _ := hc.Get()
+	verifAssume(s0 == StatusFetching)
+	verifAssert("C06.store.lookup-uses-the-full-key", verifAnd(st.gets == 1, c06SameKeyAt(st.getKey, k, i)))
+	hc.Cacheable(&HTTPResponse{}, 100)
+	verifAssert("C06.store.write-uses-the-full-key", verifAnd(st.sets == 1, c06SameKeyAt(st.setKey, k, i)))
+	verifReach("C06.store-key.end")
 }
